@@ -400,24 +400,9 @@ def _keyed_waits(chk):
                        ok, f.where(), construct=f.ident, text="keyed clearing callback " + cbn)
     chk.ob("PAIR-2", "keyed clearing callbacks examined", n >= 1, "mpf:1", detail=str(n), nontrivial=False)
     # stop loops: who is waited for
-    for rel, qual, want, coll in (("mpf/modes/game/code/game.py", "Game._stop_game_modes", {("mode.is_game_mode", True), ("mode.active", True)},
-                                   "self.machine.modes.values()"),
-                                  ("mpf/core/mode_controller.py", "ModeController._ball_ending", {("mode.is_game_mode", True), ("mode.auto_stop_on_ball_end", True)},
-                                   "self.active_modes")):
-        f = repo.func(rel, qual)
-        cfg = f.cfg()
-        st = [(nn, c) for nn, c in cfg.calls_named("stop") if src(c.func.value) == "mode" and kwarg(c, "callback") is not None]
-        chk.need(len(st) == 1, "PAIR-2", "%s stops the modes with a completion callback" % qual, f)
-        from sa.helpers import inloop_guards, positive
-        lh = [h for h in cfg.nodes if h.kind == "loop" and any(y is st[0][1] for y in ast.walk(h.ast))]
-        chk.need(lh, "PAIR-2", "%s stops the modes in a loop" % qual, f)
-        g = positive(inloop_guards(cfg, st[0][0].id, lh[-1].id))
-        lp = lh[-1].ast
-        ok = src(lp.iter) == coll and not any(isinstance(y, (ast.Break, ast.Return)) for y in ast.walk(lp))
-        chk.ob("PAIR-2", "%s looks at all of %s and never leaves the loop early" % (qual, coll), ok, f.where(lp), detail=src(lp.iter), construct=f.ident,
-               text="stop loop range")
-        chk.ob("PAIR-2", "%s waits for every mode that matches %s - no further condition excludes a mode (one already stopping still has to finish)" %
-               (qual, sorted(k for k, _ in want)), g == want, f.where(st[0][1]), detail="selection %s" % sorted(g), construct=f.ident, text="stop loop selection")
+    from sa.helpers import stop_loop_selection
+    stop_loop_selection(chk, "PAIR-2", "game", "one already stopping still has to finish")
+    stop_loop_selection(chk, "PAIR-2", "ball", "one already stopping still has to finish")
 
 
 def _pair2(chk):
@@ -756,6 +741,7 @@ def battery():
         M("game stop does not wait for a mode that is already stopping", G, "            if mode.is_game_mode and mode.active:\n                self._stopping_modes.append(mode)", "            if mode.is_game_mode and mode.active and not mode.stopping:\n                self._stopping_modes.append(mode)", "PAIR-2"),
         M("ball end does not wait for a mode that is already stopping", MC, "            if mode.auto_stop_on_ball_end:\n", "            if mode.auto_stop_on_ball_end and not mode.stopping:\n", "PAIR-2"),
         M("twin: game stop loop with an early continue", G, "            if mode.is_game_mode and mode.active:\n                self._stopping_modes.append(mode)\n                mode.stop(callback=partial(self._game_mode_stopped, mode=mode))", "            if not mode.is_game_mode or not mode.active:\n                continue\n            self._stopping_modes.append(mode)\n            mode.stop(callback=partial(self._game_mode_stopped, mode=mode))", None),
+        M("game mode asked to stop before it is noted as awaited", G, "                self._stopping_modes.append(mode)\n                mode.stop(callback=partial(self._game_mode_stopped, mode=mode))", "                mode.stop(callback=partial(self._game_mode_stopped, mode=mode))\n                self._stopping_modes.append(mode)", "PAIR-2"),
     ]
 
 
